@@ -8,6 +8,7 @@ import (
 	"io"
 	"os"
 	"path/filepath"
+	"strings"
 
 	blocks "github.com/ipfs/go-block-format"
 	"github.com/ipfs/go-cid"
@@ -89,7 +90,8 @@ func c15Build(cs C15Case) *c15Dag {
 		}
 		codec := uint64(refcar.CodecDagCBOR)
 		if i == cs.N-1 && cs.RawLeaf && cs.N > 1 {
-			d.data[i] = []byte(fmt.Sprintf("raw leaf %d", i))
+			// 100 bytes: the data length alone needs a 1-byte varint, CID+data a 2-byte one
+			d.data[i] = []byte(fmt.Sprintf("raw leaf %d %s", i, strings.Repeat("=", 89)))
 			codec = refcar.CodecRaw
 		} else {
 			d.data[i] = c15Node(i, links)
